@@ -72,6 +72,7 @@ class FakeConn(object):
         self.sent = []
         self.closed = False
         self.recv_calls = 0
+        self.log = []                    # events in the order the session caused them (TraceSession.tla)
 
     def feed(self, more):
         self.data += bytes(more)
@@ -79,6 +80,7 @@ class FakeConn(object):
     def recv(self, n):
         self.recv_calls += 1
         if self.pos >= len(self.data):
+            self.log.append({"e": "recv", "n": n, "k": 0})
             return b""
         k = n
         if self.plan:
@@ -89,12 +91,15 @@ class FakeConn(object):
                 self.plan[0] -= k
         out = self.data[self.pos:self.pos + k]
         self.pos += len(out)
+        self.log.append({"e": "recv", "n": n, "k": len(out)})
         return out
 
     def sendall(self, data):
         self.sent.append(bytes(data))
+        self.log.append({"e": "send", "i": len(self.sent) - 1})
 
     def getpeercert(self, binary_form=False):
+        self.log.append({"e": "cert"})
         return self.cert
 
     def cipher(self):
@@ -116,13 +121,16 @@ class FakeConn(object):
 class Slugs(object):
     """Scripted requests.get for SLUGS: behaviour per host name."""
 
-    def __init__(self, behaviour):
+    def __init__(self, behaviour, log=None):
         self.behaviour = behaviour      # host -> kind
         self.calls = []
+        self.log = log
 
     def __call__(self, url, timeout=None, **kw):
         self.calls.append(url)
         host = url.split("/")[2]
+        if self.log is not None:
+            self.log.append({"e": "slugs", "host": host})
         kind = self.behaviour.get(host, "unreachable")
         is_groups = url.rstrip("/").endswith("/groups")
 
@@ -148,13 +156,29 @@ class Slugs(object):
 class EngineSpy(object):
     """Wraps a real engine: records what reaches process_request."""
 
-    def __init__(self, engine):
+    def __init__(self, engine, log=None):
         self.engine = engine
         self.calls = []
+        self.log = log
 
     def process_request(self, request, credential=None):
         self.calls.append(credential)
-        return self.engine.process_request(request, credential)
+        ev = None
+        if self.log is not None:
+            user, groups = (credential + (None, None))[:2] if isinstance(credential, tuple) else (credential, None)
+            ev = {"e": "engine", "user": user if isinstance(user, str) else repr(user),
+                  "groups": list(groups) if groups is not None else ["-nogroups-"], "out": "returned"}
+            self.log.append(ev)
+        try:
+            return self.engine.process_request(request, credential)
+        except exceptions.KmipError:
+            if ev is not None:
+                ev["out"] = "kmiperr"
+            raise
+        except Exception:
+            if ev is not None:
+                ev["out"] = "othererr"
+            raise
 
     def __getattr__(self, name):
         return getattr(self.engine, name)
